@@ -1,4 +1,5 @@
 import A5.Lemmas.ChildAnchor
+import A5.Lemmas.ChildPentagon3
 /-! # C12 — children stay within a bounded reach of their parent (combinatorial / lattice core)
 
 "Children geometrically overlap their parent and stay within its reach … Hence a cell's descendants at any depth
@@ -25,9 +26,20 @@ PROVED here, for EVERY depth, EVERY position, all four children, both patterns, 
   (`child_triangle_not_contained`: child 3 of position 0 at depth 1 is edge-adjacent to, and disjoint from, its parent's
   triangle) — the statement's "overlap" is about the pentagons, which are not the lattice triangles.
 
-NOT proved here (stays with the differential search): the planar pentagon statements — parent and child pentagons have
-positive intersection area, the four children cover more than half of the parent, centre distance < 0.8·√area.
-They need the float pentagon constants (`getPentagonVertices`) and, on the sphere, the projection. -/
+The PLANAR pentagon statements (T4-T6, `A5/Lemmas/ChildPentagon*.lean`), in exact rational arithmetic on the constants the
+library computes at start-up (`A5.Gen.Runtime`), for EVERY parent depth 1..28, every orientation, position and child:
+* T4 `child_centre_within_reach`: squared distance between the child's centre (in the parent's frame) and the parent's
+  centre `< 0.4213·area(parent)`, i.e. distance `< 0.6491·√area < 0.8·√area`; the constant is sharp to four digits.
+* T5 `child_overlaps_parent`: parent and child pentagon have a common strictly interior point (and the child's own
+  centre need not be inside the parent: the pentagons do not nest).
+* T6 `children_cover_parent`: a certificate of pairwise line-separated convex pieces, each inside the parent and inside
+  one child, whose areas sum to more than 0.579 of the parent's (> 1/2).
+The depth 0 → 1 step has the quintant TRIANGLE as parent (`get_quintant_vertices`), proved separately (`root_*`); for the
+pentagon of the depth-0 anchor the reach bound is false (`root_pentagon_reach_fails`, ratio 0.917) - that pentagon is never
+drawn.  The anchors' `k` digits, needed for the mirror decision, extend the step table (`stepQuads`, 64 entries).
+
+NOT proved: the same statements on the sphere (the equal-area projection distorts distances by a bounded factor: measured
+maximum 0.68-0.70·√area against the planar 0.649) and for the `f64` evaluation; they stay with the differential search. -/
 set_option linter.unusedSectionVars false
 namespace A5.C12
 open A5 A5.HilbertLocate
@@ -291,5 +303,52 @@ example : ∃ aa ad, sToAnchor 2 1 3 = .ok aa ∧ sToAnchor 185 4 3 = .ok ad ∧
   have e : ((reachB (oriFlipIJ 3) : Int) : ℚ) = 3 := by decide +kernel
   rewrite [e] at this
   exact ⟨aa, ad, h1, h2, this.2.1⟩
+
+/-! ## T4-T6: the planar pentagon statements (exact arithmetic on the runtime constants) -/
+
+open A5.PG A5.CP in
+/-- T4. `child_centre_within_reach`: for every parent depth `n+1` (1..28), orientation, position and child, the child's
+centre lies within `0.6491·√area` (hence `0.8·√area`) of the parent's centre, in the plane. -/
+theorem child_centre_within_reach (n o s d : Nat) (hn : n + 2 ≤ 30) (ho : o < 6) (hs : s < 4 ^ (n + 1)) (hd : d < 4) :
+    ∃ ap ac, sToAnchor s (n + 1) o = .ok ap ∧ sToAnchor (4 * s + d) (n + 2) o = .ok ac ∧
+      centreDistSq ap ac < 4213 / 10000 * (areaG 0 (pentagonQ ap) / 2) ∧
+      centreDistSq ap ac < 64 / 100 * (areaG 0 (pentagonQ ap) / 2) :=
+  child_centre_reach n o s d hn ho hs hd
+
+open A5.PG A5.CP in
+/-- T4, sharpness: every orientation class has a parent/child pair with squared distance above `0.4212·area`. -/
+theorem child_reach_sharp : ∀ inv fl : Bool, ¬(fl = true ∧ inv = true) → ∃ q ∈ finalQuads inv fl,
+    4212 / 10000 * pentArea < reachSq q :=
+  reach_table_sharp
+
+open A5.PG A5.CP in
+/-- T5. `child_overlaps_parent`: parent and child pentagons share a strictly interior point. -/
+theorem child_overlaps_parent (n o s d : Nat) (hn : n + 2 ≤ 30) (ho : o < 6) (hs : s < 4 ^ (n + 1)) (hd : d < 4) :
+    ∃ ap ac, sToAnchor s (n + 1) o = .ok ap ∧ sToAnchor (4 * s + d) (n + 2) o = .ok ac ∧
+      ∃ w : ℚ × ℚ, StrictIn (pentagonQ ap) w ∧ StrictIn (scaleG' (pentagonQ ac) (1 / 2)) w :=
+  A5.CP.child_overlaps_parent n o s d hn ho hs hd
+
+open A5.PG A5.CP in
+/-- T6. `children_cover_parent`: the four children together cover more than half (indeed more than 0.579) of the
+parent's area - as a certificate of pairwise separated convex pieces inside parent ∩ child. -/
+theorem children_cover_parent (n o s : Nat) (hn : n + 2 ≤ 30) (ho : o < 6) (hs : s < 4 ^ (n + 1)) :
+    ∃ ap, sToAnchor s (n + 1) o = .ok ap ∧ ∃ kids : List Anchor, kids.length = 4 ∧
+      (∀ d, d < 4 → sToAnchor (4 * s + d) (n + 2) o = .ok (kids.getD d default)) ∧
+      ∃ pieces : List (List (ℚ × ℚ)),
+        CoverCert (pentagonQ ap) (kids.map (fun ac => scaleG' (pentagonQ ac) (1 / 2))) pieces ∧
+        579 / 1000 * areaG 0 (pentagonQ ap) < (pieces.map fanArea2).sum ∧
+        1 / 2 * areaG 0 (pentagonQ ap) < (pieces.map fanArea2).sum :=
+  A5.CP.children_cover_parent n o s hn ho hs
+
+open A5.PG A5.CP in
+/-- T4-T6 for the step from the quintant triangle (resolution 1) to its four children (resolution 2). -/
+theorem root_children (o : Nat) (ho : o < 6) :
+    (∀ d, d < 4 → ∃ ac, sToAnchor (4 * 0 + d) 1 o = .ok ac ∧ rootDistSq ac < 3773 / 10000 * (areaG 0 quintantTriQ / 2)) ∧
+    ∃ kids : List Anchor, kids.length = 4 ∧ (∀ d, d < 4 → sToAnchor (4 * 0 + d) 1 o = .ok (kids.getD d default)) ∧
+      (∀ ac ∈ kids, ∃ w : ℚ × ℚ, StrictIn quintantTriQ w ∧ StrictIn (scaleG' (pentagonQ ac) (1 / 2)) w) ∧
+      ∃ pieces : List (List (ℚ × ℚ)),
+        CoverCert quintantTriQ (kids.map (fun ac => scaleG' (pentagonQ ac) (1 / 2))) pieces ∧
+        787 / 1000 * areaG 0 quintantTriQ < (pieces.map fanArea2).sum :=
+  ⟨fun d hd => root_centre_reach o d ho hd, root_children_cover o ho⟩
 
 end A5.C12
